@@ -150,7 +150,7 @@ class C01(Check):
                     if cap and mode != "call":
                         continue
                     for typed in (False, True):
-                        for term in ((None, "awk", "ttree") if len(st) == 1 or not Q else (None,)):
+                        for term in ((None, "awk", "ttree", "pandas", "parquet") if len(st) == 1 or not Q else (None,)):
                             out.append((mode, typed, term, st))
             return out
 
@@ -220,6 +220,10 @@ class C01(Check):
             return s.AsAwkwardArray(["c1"])
         if term == "ttree":
             return s.AsROOTTTree("f.root", "tree", ["c1"])
+        if term == "pandas":
+            return s.AsPandasDF(["c1"])
+        if term == "parquet":
+            return s.AsParquetFiles("f.pq", ["c1"])
         return s
 
     def _expected(self, g, term):
@@ -229,6 +233,10 @@ class C01(Check):
                 return ("awkward", list(r), ["c1"])
             if term == "ttree":
                 return ("ttree", list(r), ["c1"], "tree", "f.root")
+            if term == "pandas":
+                return ("pandas", list(r), ["c1"])
+            if term == "parquet":
+                return ("parquet", list(r), ["c1"], "f.pq")
             return r
         return f
 
